@@ -403,7 +403,9 @@ class Sym:
             if cur is not None and m in ('update', 'extend', '__ior__') and len(node.args) == 1:
                 env.setdeep(name, ('call', m, (cur, self.ev(node.args[0], env, fr))))
                 return
-        # other calls: evaluate for inlined side effects on accumulators (none tracked)
+        # other expression statements: evaluate so that attribute stores inside inlined callees are recorded
+        if isinstance(node, (ast.Call, ast.Await)):
+            self.ev(node, env, fr)
         return
 
     # ---- loops
@@ -1217,7 +1219,8 @@ def _norm1(t):
     if k == 'cat':
         parts = []
         for p in t[1]:
-            p = p[1] if p[0] == 'str' and is_stringy(p[1]) else p
+            # inside a concatenation str(x) and x are the same text on every non-raising path (x + '...' requires a str)
+            p = p[1] if p[0] == 'str' else p
             if p[0] == 'cat':
                 parts.extend(p[1])
             else:
@@ -1250,6 +1253,33 @@ def _norm1(t):
             return b
         if c[0] == 'not':
             return ('cond', c[1], b, a)
+        if c[0] == 'cmp' and c[1] in ('IsNot', 'NotEq', 'NotIn'):
+            return ('cond', ('cmp', {'IsNot': 'Is', 'NotEq': 'Eq', 'NotIn': 'In'}[c[1]], c[2], c[3]), b, a)
+        return t
+    if k == 'slice':
+        if t[2] == ('lit', 0):
+            return ('slice', t[1], NONE_T, t[3])
+        return t
+    if k == 'join':
+        sep, seq = t[1], t[2]
+        if seq[0] in ('list', 'tuple') and sep[0] == 'lit' and isinstance(sep[1], str) and seq[1]:
+            parts = []
+            for i, x in enumerate(seq[1]):
+                if i:
+                    parts.append(sep)
+                parts.append(x if is_stringy(x) else ('str', x))
+            return _norm1(('cat', tuple(parts)))
+        return t
+    if k == 'sorted':
+        key = t[2]
+        # sorted(d.items(), key=lambda kv: kv[0]) == sorted(d.items()): dict keys are unique, so the value never decides
+        if key[0] == 'lam' and len(key[1]) == 1 and key[2] == ('index', key[1][0], ('lit', 0)) and t[1][0] == 'items':
+            return ('sorted', t[1], NONE_T)
+        return t
+    if k == 'call' and t[1] == 'encode':
+        args = t[2]
+        if len(args) == 2 and args[1][0] == 'lit' and str(args[1][1]).lower().replace('-', '') == 'utf8':
+            return ('call', 'encode', (args[0],))
         return t
     if k == 'not':
         c = t[1]
@@ -1299,12 +1329,43 @@ def _norm1(t):
     return t
 
 
+_BINDERS = {'map': (1, (2, 4)), 'mapdict': (1, (2, 3, 5)), 'lam': (1, (2,))}
+
+
 def _alpha(t):
-    """Rename bound variables v#uid to v0, v1, ... by order of first occurrence (DFS)."""
+    """Canonical names for bound variables: a variable is named after the nesting depth of its binder and its
+    position in the binder (`b<depth>.<i>`), so two evaluations of the same expression get identical terms no matter
+    how many other binders were instantiated in between.  Variables without a binder keep first-occurrence names."""
     mapping = {}
+    seen = set()
+
+    def assign(x, depth):
+        if not isinstance(x, tuple) or not x:
+            return
+        key = (id(x), depth)
+        if key in seen:
+            return
+        seen.add(key)
+        k = x[0]
+        if k in _BINDERS and len(x) > max(_BINDERS[k][1]):
+            vi, scoped = _BINDERS[k]
+            for i, v in enumerate(x[vi]):
+                if isinstance(v, tuple) and len(v) == 2 and v[0] == 'var' and v[1] not in mapping:
+                    mapping[v[1]] = f'b{depth}.{i}'
+            for idx, c in enumerate(x):
+                if isinstance(c, tuple):
+                    assign(c, depth + 1 if idx in scoped else depth)
+            return
+        for c in x:
+            if isinstance(c, tuple):
+                assign(c, depth)
+
+    assign(t, 0)
+    free = 0
     for x in dag_nodes(t):
         if len(x) == 2 and x[0] == 'var' and isinstance(x[1], str) and x[1] not in mapping:
-            mapping[x[1]] = f'v{len(mapping)}'
+            mapping[x[1]] = f'f{free}'
+            free += 1
     memo = {}
 
     def go(x):
@@ -1314,7 +1375,7 @@ def _alpha(t):
         if i in memo:
             return memo[i]
         if len(x) == 2 and x[0] == 'var' and isinstance(x[1], str):
-            r = ('var', mapping[x[1]])
+            r = ('var', mapping.get(x[1], x[1]))
         else:
             r = tuple(go(y) for y in x)
             if all(a is b for a, b in zip(r, x)):
